@@ -29,6 +29,7 @@ type assignmentBuilder struct {
 	rhsVar            gmodel.Var       // The variable on the right-hand side of the assignment.
 	additionalArgVars []gmodel.Var     // The additional arguments to use in the assignment.
 	funcName          string           // The name of the method being generated.
+	retError          bool             // Whether the method being generated returns an error.
 	copiers           []*bmodel.Copier // The list of copiers used in the generated code.
 }
 
@@ -50,6 +51,7 @@ func newAssignmentBuilder(
 		rhsVar:            rhsVar,
 		additionalArgVars: additionalArgs,
 		funcName:          m.Name(),
+		retError:          m.RetError(),
 	}
 }
 
@@ -231,7 +233,12 @@ func (b *assignmentBuilder) createWithConverter(lhs, rhs bmodel.Node, converter 
 		}
 
 		rhsNode, ok := b.resolveExpr(converter.Src(), root)
-		if !ok {
+		if !ok || rhsNode.ReturnsError() {
+			// A (value, error) getter cannot be passed as a converter argument.
+			return nil
+		}
+		if converter.RetError() && !b.retError {
+			// The converter's error has nowhere to go.
 			return nil
 		}
 
@@ -343,8 +350,16 @@ func (b *assignmentBuilder) createWithTemplatedMapper(
 // it creates a typecast node and returns it along with true.
 // Otherwise, it returns nil and false.
 func (b *assignmentBuilder) castNode(lhsType types.Type, rhs bmodel.Node) (c bmodel.Node, ok bool) {
+	if rhs.ReturnsError() && !b.retError {
+		// The expression's error has nowhere to go.
+		return nil, false
+	}
 	if types.AssignableTo(rhs.ExprType(), lhsType) {
 		return rhs, true
+	}
+	if rhs.ReturnsError() {
+		// A multi-value expression cannot be wrapped by a conversion.
+		return nil, false
 	}
 
 	if b.opts.Stringer && types.AssignableTo(util.StringType(), lhsType) && util.CompliesStringer(rhs.ExprType()) {
